@@ -402,7 +402,7 @@ def rule_adjoint_fill(rep: Report, repo: Repo):
     for d in nested_defs(otb):
         if d.name == "op_eval":
             sites.append(("block_diagonalization", "block_diagonalization::operator_to_BlockSeries::op_eval", d, otb))
-    rep.floor(RF, "hand-written Hermitian fills", len(sites), 3)
+    rep.floor(RF, "hand-written eval closures that may fill by Hermiticity", len(sites), 1)
     for mod, q, d, parent in sites:
         if not (d.args.vararg and d.args.vararg.arg == "index" and not d.args.args):
             raise AnalysisError(RF, f"{q}: signature is not (*index)")
